@@ -233,6 +233,7 @@ var c12Sel = []string{
 	"SELECT k, MEDIAN(v) AS md, STDEV(v) AS sd FROM t GROUP BY k",
 }
 var c12Dml = []string{
+	"PREPARE p FROM 'SELECT COUNT(*) FROM t WHERE v > ? AND k <> ?'; EXECUTE p USING 1, 'zz'; EXECUTE p USING 1 + 1, 'a' || 'b'; PREPARE q FROM 'SELECT id, v + :inc FROM t WHERE v >= :lo ORDER BY id'; EXECUTE q USING 1 AS inc, 0 AS lo",
 	"CREATE TABLE `totals.csv` AS SELECT k, SUM(f) AS s, AVG(f) AS a FROM t GROUP BY k; SELECT SUM(s) FROM totals",
 	"UPDATE t SET f = (SELECT SUM(x.f) FROM t x) WHERE id % 400 = 1; SELECT AVG(f) FROM t",
 	"INSERT INTO u (id, k, w) SELECT MAX(id) + 100000, k, SUM(f) FROM t GROUP BY k; SELECT SUM(w) FROM u",
